@@ -32,7 +32,7 @@ def pipeline(task):
     w = W()
     uid = rng.choice([0, 1000])
     home = w.dir(R + b"/home/" + rng.choice([n for n in HOME_NAMES if n != b"info"]))
-    layout = rng.choice(["home", "top", "alt", "custom"])
+    layout = rng.choice(["home", "top", "alt", "custom", "fallback"])
     env = {"HOME": home}
     opts = {}
     if layout == "home":
@@ -42,6 +42,14 @@ def pipeline(task):
         d = R + b"/vol1" + rng.choice([b"/stuff", b"/a/b/c", b"/stuff", DEEP_AREA])
         if layout == "top":
             w.dir(R + b"/vol1/.Trash", 0o1777)
+        if layout == "fallback":
+            # the volume's own trash directories are unusable and the home fallback is on: the entry is COPIED to the home
+            # trash of another volume and copied back by the restore - attributes and all
+            w.file(R + b"/vol1/.Trash-%d" % uid, b"in the way")
+            if rng.random() < 0.5:
+                w.file(R + b"/vol1/.Trash", b"not a directory either")
+            opts["homeFallback"] = True
+            env["TRASH_ENABLE_HOME_FALLBACK"] = b"1"
         if layout == "custom":
             # the same directory under three spellings: plain, through a symbolic link that crosses the mount point, and
             # through a link followed by '..' (the kernel follows the link before it goes up)
@@ -57,6 +65,9 @@ def pipeline(task):
                 opts["trashDir"] = R + b"/vol1/ct"
     w.dir(d)
     kind = make_entry(rng, w, d, name, rng.choice(["file", "empty", "tree", "link-dangling"]) if len(name) > 200 else None)
+    if layout == "fallback":
+        for n_ in w.nodes.values():          # (a named pipe is refused by shutil's copy: not this model's business)
+            n_.pop("special", None)
     other = make_entry(rng, w, d, b"other-entry", "file")
     entry = d + b"/" + name
     cwd_put = rng.choice([d, home, R])
